@@ -24,7 +24,11 @@ Inductive nval :=
 
 Inductive tstate := Suspended | Blackholed | Evaluated.
 
-Record cell := mkcell { c_tm : tm; c_env : nenv; c_state : tstate; c_val : option nval }.
+(* InnerThunkData: standard thunks, and the revertible thunks allocated for record fields that
+   depend on sibling fields (only the distinction is modelled; reverting belongs to merging) *)
+Inductive tkind := Standard | Revertible.
+
+Record cell := mkcell { c_tm : tm; c_env : nenv; c_kind : tkind; c_state : tstate; c_val : option nval }.
 Definition heap := list cell.
 
 (* deliberately wrong variants, used to show that the refinement statement has teeth *)
@@ -33,10 +37,10 @@ Inductive mode :=
  | WrongCell      (* the update frame writes the result into the previously allocated cell *)
  | CallerEnv.     (* a function body runs in the caller's environment instead of the closure's *)
 
-Definition fresh (c : tm * nenv) : cell := mkcell (fst c) (snd c) Suspended None.
+Definition fresh (c : tm * nenv) : cell := mkcell (fst c) (snd c) Standard Suspended None.
 
 Definition alloc (h : heap) (t : tm) (rho : nenv) : heap * loc :=
-  (h ++ [mkcell t rho Suspended None], List.length h).
+  (h ++ [mkcell t rho Standard Suspended None], List.length h).
 
 Fixpoint set_nth {A} (l : list A) (i : nat) (a : A) : list A :=
   match l, i with
@@ -47,13 +51,13 @@ Fixpoint set_nth {A} (l : list A) (i : nat) (a : A) : list A :=
 
 Definition set_state (h : heap) (l : loc) (s : tstate) : heap :=
   match nth_error h l with
-  | Some c => set_nth h l (mkcell (c_tm c) (c_env c) s (c_val c))
+  | Some c => set_nth h l (mkcell (c_tm c) (c_env c) (c_kind c) s (c_val c))
   | None => h
   end.
 
 Definition update (h : heap) (l : loc) (v : nval) : heap :=
   match nth_error h l with
-  | Some c => set_nth h l (mkcell (c_tm c) (c_env c) Evaluated (Some v))
+  | Some c => set_nth h l (mkcell (c_tm c) (c_env c) (c_kind c) Evaluated (Some v))
   | None => h
   end.
 
@@ -86,9 +90,9 @@ Fixpoint field_locs (base : nat) (fs : list (string * tm)) : list (string * loc)
 
 Definition alloc_fields (h : heap) (rho : nenv) (fs : list (string * tm)) : heap * list (string * loc) :=
   let ls := field_locs (List.length h) fs in
-  (h ++ map (fun p => mkcell (snd p)
-                        (if has_deps (map fst fs) (snd p) then ls ++ rho else rho)
-                        Suspended None) fs,
+  (h ++ map (fun p => if has_deps (map fst fs) (snd p)
+                      then mkcell (snd p) (ls ++ rho) Revertible Suspended None
+                      else mkcell (snd p) rho Standard Suspended None) fs,
    ls).
 
 Fixpoint index_of (f : string) (fl : files) : option nat :=
@@ -100,7 +104,7 @@ Fixpoint index_of (f : string) (fl : files) : option nat :=
 
 (* imports: one shared thunk per file, closurized in the empty environment (cache.rs: closurize) *)
 Definition init_heap (fl : files) : heap :=
-  map (fun p => mkcell (snd p) [] Suspended None) fl.
+  map (fun p => mkcell (snd p) [] Standard Suspended None) fl.
 
 Definition nbinop_sem (o : binop) (v1 v2 : nval) : outcome nval :=
   match o, v1, v2 with
@@ -189,7 +193,7 @@ Fixpoint evalN (n : nat) (h : heap) (rho : nenv) (t : tm) {struct n} : outcome n
     | Let x e b => let (h1, l) := alloc h e rho in evalN n h1 ((x, l) :: rho) b
     | LetRec x e b =>
         let l := List.length h in
-        evalN n (h ++ [mkcell e ((x, l) :: rho) Suspended None]) ((x, l) :: rho) b
+        evalN n (h ++ [mkcell e ((x, l) :: rho) Standard Suspended None]) ((x, l) :: rho) b
     | Num z => (Ok (NNum z), h)
     | Str s => (Ok (NStr s), h)
     | Bool b => (Ok (NBool b), h)
